@@ -27,6 +27,14 @@ def units():
                   "function": "common.c:" + fn, "defines": ["-D" + d], "timeout": 600, "cbmc_flags": ["--object-bits", "9"], "backend": "kissat",
                   "replace": (["psf_cues_alloc"] if d == "U_DUP" else []),
                   "trusted": ["E1 memcpy model (both ranges asserted for the symbolic length; destination then unconstrained)", "CBMC calloc never fails"]})
+    for hist in (0, 6):
+        U.append({"name": "bext.wav_chunk_pair.hist%d" % hist, "props": ["C12"], "harness": "bext_pair.harness.c", "entry": "h_bext_pair", "dfcc": False,
+                  "function": "wavlike.c:wavlike_write_bext_chunk + wavlike_read_bext_chunk (with common.c psf_binheader_writef/readf)",
+                  "link_sources": ["common.c"], "defines": ["-DHIST=%d" % hist, "-include", "/verif/spec/abi_vaarg.h"],
+                  "pre_gi_flags": ["--remove-function-body", "psf_log_printf"],
+                  "cbmc_flags": ["--object-bits", "9", "--unwind", "30", "--unwindset", "h_bext_pair.0:1030,psf_binheader_writef.0:190"], "timeout": 900,
+                  "kind": "proof(pair lemma; coding history size enumerated (%d); all field contents symbolic, ghost index into the text fields)" % hist,
+                  "trusted": ["spec/abi_vaarg.h (variadic int arguments fetched as size_t)", "the reader's block is the harness's zeroed static block (broadcast_var_alloc stand-in)"]})
     return U
 
 
